@@ -11,8 +11,13 @@ def decFailKind (s : String) : FailKind :=
   else if s == "directive" then .directive else .exception
 
 def opsLines : List String → Option String
-  | ["docstart", d, src, endline] =>
-    some (match docLines (decStrList src) ⟨decStr d, endline.toNat!⟩ with
+  | ["docstart_mode"] => some (if Generated.docstartUsesNodeLineno then "node" else "workaround")
+  | ["docstart", d, src, endline, startline] =>
+    some (match docLines (decStrList src) ⟨decStr d, endline.toNat!, startline.toNat!⟩ with
+      | .error _ => "error:IndexError"
+      | .ok (a, b) => toString a ++ "," ++ toString b)
+  | ["find_doc_start", d, src, endpos] =>
+    some (match findDocStart (decStr d) (decStrList src) endpos.toNat! with
       | .error _ => "error:IndexError"
       | .ok (a, b) => toString a ++ "," ++ toString b)
   | ["end_ok", trip, line] => some (encBool (endOk (decStr trip) (decStr line)))
